@@ -2130,6 +2130,15 @@ func (a *Authenticator) handleClientAuthentication(ctx context.Context, negotiat
 	// Check if it's "YES" or if the negotiated auth method is not NONE
 
 	if !authRequired {
+		// The server waived authentication. That is only acceptable if our own
+		// policy does not REQUIRE it; and in that case the outcome we report must
+		// say that no authentication took place (negotiateSecurity recorded our own
+		// wish, not what the server agreed to).
+		if a.config.Authentication == SecurityRequired {
+			return fmt.Errorf("server declined authentication (Authentication=%q) but local policy requires it",
+				negotiation.ServerConfig.Authentication)
+		}
+		negotiation.Authentication = false
 		slog.Debug("🔐 CLIENT: No authentication required", "destination", "cedar")
 		return nil
 	}
